@@ -35,13 +35,15 @@ fn gen_tree_case(rng: &mut Rng, thorough: bool) -> String {
     let ctx = if mode == "files" { "0" } else { *rng.pick(CTXS) };
     let null = matches!(mode, "nohead" | "nohead-o" | "count" | "count-matches") && rng.chance(1, 6);
     format!(
-        "tree seed={} mode={} ctx={} ln={} null={} roots={} files={} big={} slow={} crlf={} reps={}",
+        "tree seed={} mode={} ctx={} ln={} null={} roots={} links={} bin={} files={} big={} slow={} crlf={} reps={}",
         rng.below(1 << 30),
         mode,
         ctx,
         (mode != "files" && rng.chance(1, 4)) as u8,
         null as u8,
         rng.chance(1, 3) as u8,
+        rng.chance(1, 4) as u8,
+        rng.chance(1, 4) as u8,
         if rng.chance(1, 6) { rng.range(0, 2) } else { rng.range(2, 40) },
         rng.chance(1, 3) as u8,
         rng.chance(1, 6) as u8,
@@ -308,13 +310,43 @@ fn run_tree(case: &str, ctx: &mut Ctx, drv: &mut Driver, rep: &mut Report) {
     }
     ctx.counter += 1;
     let dir = fresh_dir(&ctx.scratch, &format!("t{}", ctx.counter));
-    let tree = build_tree(&dir, seed, nfiles as usize, big == 1, crlf == 1);
+    let mut tree = build_tree(&dir, seed, nfiles as usize, big == 1, crlf == 1);
+    let (links, binf) = (num("links").unwrap_or(0), num("bin").unwrap_or(0));
+    if links == 1 {
+        // symlinks to files above and below --max-filesize, followed with -L
+        let mut extra = vec![];
+        for (i, n) in tree.names.iter().enumerate() {
+            if (seed as usize + i) % 3 == 0 {
+                let (d, base) = match n.rfind('/') { Some(k) => (&n[..=k], &n[k + 1..]), None => ("", n.as_str()) };
+                let l = format!("{}l{}", d, &base[1..]);
+                if std::os::unix::fs::symlink(base, dir.join(&l)).is_ok() { extra.push(l); }
+            }
+        }
+        tree.names.extend(extra);
+        rep.branch("symlinks+max-filesize");
+    }
+    if binf == 1 {
+        // binary files (a NUL before the match): dropped when found by traversal, reported when named explicitly
+        let mut extra = vec![];
+        for (i, n) in tree.names.clone().iter().enumerate().take(12) {
+            if (seed as usize + i) % 2 == 0 && !n.contains("/l") && !n.starts_with('l') {
+                let (d, base) = match n.rfind('/') { Some(k) => (&n[..=k], &n[k + 1..]), None => ("", n.as_str()) };
+                let b = format!("{}b{}", d, &base[1..]);
+                std::fs::write(dir.join(&b), format!("bin\0ary needle {}\nneedle again\n", i)).unwrap();
+                extra.push(b);
+            }
+        }
+        tree.names.extend(extra);
+        rep.branch("binary-files");
+    }
     let names: BTreeSet<String> = tree.names.iter().cloned().collect();
     // several root paths (files and directories, usually more than threads) instead of the implicit "."
     let root_args: Vec<String> = if roots == 1 {
         let mut v: Vec<String> = names.iter().map(|n| n.split('/').next().unwrap().to_string()).collect();
         v.sort();
         v.dedup();
+        // explicitly named files first, directories after them
+        v.sort_by_key(|r| (dir.join(r).is_dir(), r.clone()));
         if v.len() < 2 { vec![] } else { v }
     } else {
         vec![]
@@ -332,6 +364,7 @@ fn run_tree(case: &str, ctx: &mut Ctx, drv: &mut Driver, rep: &mut Report) {
         if cflag != "0" { c.arg(format!("-{}", cflag)); }
         if ln == 1 { c.arg("-n"); }
         if null == 1 { c.arg("--null"); }
+        if links == 1 { c.args(["-L", "--max-filesize", "500"]); }
         if crlf == 1 { c.arg("--crlf"); }
         if slow == 1 && mode != "files" { c.arg("--pre").arg(&script); }
         if mode != "files" { c.arg("needle"); }
@@ -712,7 +745,7 @@ fn main() {
         "C08",
         "tree: generated trees of 0-40 files (0-4000 lines each, match density 0-90%, up to 3 directory levels, optional slow \
          --pre on a third of the files, optional CRLF files with --crlf) searched with -j1 once and -jN (N in 2..16) 2x (thorough 6x) \
-         in modes no-heading, heading, -o, -c, --count-matches, -l, --files-without-match, --json, --files, each crossed with -A2/-B1/-C1/none, -n, --null (where lines stay newline-terminated) and with several root paths (files and directories, more roots than threads); sort: --sort/--sortr path with -jN \
+         in modes no-heading, heading, -o, -c, --count-matches, -l, --files-without-match, --json, --files, each crossed with -A2/-B1/-C1/none, -n, --null (where lines stay newline-terminated) with several root paths (explicit files first, then directories, more roots than threads), with symlinks to files above / below --max-filesize followed by -L, and with binary files (NUL before the match) inside directories and as explicit arguments; sort: --sort/--sortr path with -jN \
          vs -j1; nulldata: the two-file --null-data -C1 witness; failpre: a --pre command that exits 3 after its output on a third of the files. Non-trivial: at least two non-empty blocks. Distinct by case text. \
          JSON blocks are compared after removing the elapsed-time fields and the summary line.",
     );
